@@ -207,7 +207,21 @@ def gate_kwargs(g):
     return kw
 
 
+class FormRefused(Exception):
+    """the constructors of the library refuse this (form, container) of a gate: outside every stream and sweep"""
+
+
 def add_gate_in_form(qc, g):
+    try:
+        _add_gate_in_form(qc, g)
+    except FormRefused:
+        raise
+    except Exception as e:
+        raise FormRefused(f"{g.name} as {getattr(g, 'form', 'name')}/{getattr(g, 'cont', 'list')}: "
+                          f"{type(e).__name__}: {e}")
+
+
+def _add_gate_in_form(qc, g):
     """put the harness gate `g` into `qc` in the form g.form: by NAME through add_gate, as an instance of the library
     CLASS of that name, as a GENERIC base-class Gate carrying the name, MOVED from another circuit, or (CNOT, CSIGN) as a
     `_OneControlledGate(target_gate=...)` carrying the name"""
@@ -944,6 +958,9 @@ class C03(PropertyCheck):
             answers = o.split("#")
             try:
                 calls = self._play_live(w)
+            except FormRefused:
+                res.hist["live=form-refused"] = res.hist.get("live=form-refused", 0) + 1
+                continue
             except Exception as e:
                 res.disagree({"live": w["live"]["ops"]}, o[:200], "harness: " + repr(e), "live history could not be played", w)
                 continue
@@ -1087,6 +1104,12 @@ class C03(PropertyCheck):
 
     # ---------------------------------------------------------------------------------
     def oracle_replay(self, ctx, w):
+        try:
+            return self._oracle_replay(ctx, w)
+        except FormRefused as e:
+            return False, f"outside the property: the constructors refuse this form of the gate ({e})"
+
+    def _oracle_replay(self, ctx, w):
         if "live" in w:
             return self._replay_live(ctx, w)
         if "history" in w:
@@ -1105,6 +1128,8 @@ class C03(PropertyCheck):
         circuit alone."""
         try:
             calls = self._play_live(w, judge=True)
+        except FormRefused:
+            raise
         except Exception as e:
             return False, f"history not executable: {type(e).__name__}: {e}"
         n = len(calls)
@@ -1381,10 +1406,14 @@ class C03(PropertyCheck):
         fw = list(self._form_witnesses())
         if not ctx.thorough:
             fw = ctx.rng.sample(fw, min(len(fw), 250))
+        refused = 0
         for w in itertools.chain(self._oracle_histories(), fw, self._live_histories(ctx.rng, 40 if not ctx.thorough else 300)):
             f, d = self.oracle_replay(ctx, w)
             if f:
                 yield w, d
+            elif "the constructors refuse this form" in d:
+                refused += 1
+        ctx.log(f"oracle sweep: {len(fw)} object-form witnesses, {refused} skipped (form refused by the constructors)")
         if ctx.thorough:
             for w in self._histories(ctx.rng, 200):
                 f, d = self.oracle_replay(ctx, w)
